@@ -472,8 +472,16 @@ impl<'a, 'b> Gen<'a, 'b> {
                 for v in 0..nv {
                     let vn = self.fresh_variant_name(&local);
                     local.insert(vn.clone());
-                    let arity = if self.phase == "strings" { 1 + self.d.below(2) } else { self.d.below(4) };
-                    self.label(&format!("variant:arity{arity}"));
+                    // now and then a wide variant: 5..24 payload fields
+                    let arity = if self.phase == "strings" {
+                        1 + self.d.below(2)
+                    } else if self.d.chance(8) {
+                        self.label("variant:wide");
+                        5 + self.d.below(20)
+                    } else {
+                        self.d.below(4)
+                    };
+                    self.label(&format!("variant:arity{}", if arity > 4 { "5+".to_string() } else { arity.to_string() }));
                     let mut ps = vec![];
                     for _ in 0..arity {
                         let t = if self.phase == "strings" {
@@ -489,7 +497,15 @@ impl<'a, 'b> Gen<'a, 'b> {
                 Body::Enum(vs)
             } else {
                 self.label("struct");
-                let nf = if self.phase == "strings" { 1 + self.d.below(2) } else { self.d.below(5) };
+                // now and then a wide struct: 6..45 fields
+                let nf = if self.phase == "strings" {
+                    1 + self.d.below(2)
+                } else if self.d.chance(10) {
+                    self.label("struct:wide");
+                    6 + self.d.below(40)
+                } else {
+                    self.d.below(5)
+                };
                 if nf == 0 {
                     self.label("empty-struct");
                 }
